@@ -7,6 +7,6 @@ d=$(mktemp -d /tmp/ben-XXXXXX); trap 'rm -rf "$d"' EXIT
 rsync -a --exclude .git /repo/ "$d/"
 ( cd "$d" && patch -p1 -s --no-backup-if-mismatch < "$patch" ) || { echo "PATCH-FAILED $1"; exit 3; }
 ( cd "$d" && go build ./... && go test -vet=off -count=1 ./... >/dev/null 2>&1 ) || { echo "SUITE-FAILED $1"; exit 3; }
-out=$(/verif/bin/resverif check -p all -repo "$d" -no-evidence 2>&1); r=$?
+out=$(${RESVERIF:-/verif/bin/resverif} check -p all -repo "$d" -no-evidence 2>&1); r=$?
 if [ $r -ne 0 ]; then echo "FALSE-ALARM $1 exit=$r"; echo "$out" | grep -E "^  (VIOLATION|UNDECIDED): |^    construct:|^UNDECIDED" | sed "s#$d/##g" | cut -c1-260 | head -12; else echo "quiet $1"; fi
 exit $r
